@@ -561,6 +561,9 @@ class C20Machine(Machine):
             else:
                 v = s2['events'][i][j]
                 s2['events'][i][j] = 1.0 if v != 1.0 else 2.0
+                if r.random() < 0.35:
+                    s2['events'][i][j] = float('nan')        # the one differing event is "not a number" in one file only
+                    out['probes']['differing_event_is_nan_in_one_file'] = 1
             changed = 'event' if not late else 'late-event'
         elif kind == 'keyword' and s2.get('extra'):
             i = r.randrange(len(s2['extra']))
